@@ -29,6 +29,77 @@ def _lift(x):
     raise A.Undecided("array element %r" % (x,))
 
 
+class _ViewList:
+    """the elements of a view in its own C order, read from and written through to the storage of the array it is a view of"""
+    __slots__ = ("store", "index")
+
+    def __init__(self, store, index):
+        self.store, self.index = store, index
+
+    def __len__(self):
+        return len(self.index)
+
+    def __iter__(self):
+        st = self.store
+        return iter([st[i] for i in self.index])
+
+    def __getitem__(self, k):
+        if isinstance(k, slice):
+            return [self.store[i] for i in self.index[k]]
+        return self.store[self.index[k]]
+
+    def __setitem__(self, k, v):
+        if isinstance(k, slice):
+            for i, x in zip(self.index[k], v):
+                self.store[i] = x
+        else:
+            self.store[self.index[k]] = v
+
+    def __eq__(self, o):
+        return list(self) == list(o)
+
+
+def _nocopy_reshape(old_shape, old_strides, new_shape, fortran):
+    """numpy's rule for when a reshape can be a view (port of _attempt_nocopy_reshape): new strides or None"""
+    olddims = [d for d in old_shape if d != 1]
+    oldstrides = [s_ for d, s_ in zip(old_shape, old_strides) if d != 1]
+    oldnd, newnd = len(olddims), len(new_shape)
+    newstrides = [0] * newnd
+    oi, oj, ni, nj = 0, 1, 0, 1
+    while ni < newnd and oi < oldnd:
+        np_, op = new_shape[ni], olddims[oi]
+        while np_ != op:
+            if np_ < op:
+                np_ *= new_shape[nj]
+                nj += 1
+            else:
+                op *= olddims[oj]
+                oj += 1
+        for ok in range(oi, oj - 1):
+            if fortran:
+                if oldstrides[ok + 1] != olddims[ok] * oldstrides[ok]:
+                    return None
+            else:
+                if oldstrides[ok] != olddims[ok + 1] * oldstrides[ok + 1]:
+                    return None
+        if fortran:
+            newstrides[ni] = oldstrides[oi]
+            for nk in range(ni + 1, nj):
+                newstrides[nk] = newstrides[nk - 1] * new_shape[nk - 1]
+        else:
+            newstrides[nj - 1] = oldstrides[oj - 1]
+            for nk in range(nj - 1, ni, -1):
+                newstrides[nk - 1] = newstrides[nk] * new_shape[nk]
+        ni, nj = nj, nj + 1
+        oi, oj = oj, oj + 1
+    last = newstrides[ni - 1] if ni >= 1 else 1
+    if fortran and ni >= 1:
+        last *= new_shape[ni - 1]
+    for nk in range(ni, newnd):
+        newstrides[nk] = last
+    return newstrides
+
+
 class SymArr:
     _abs_native = True
 
@@ -36,8 +107,27 @@ class SymArr:
         self.shape = tuple(int(s) for s in shape)
         self.boolean = boolean        # an array allocated with dtype=bool keeps python booleans (usable as a mask)
         self.flat = [bool(x) for x in flat] if boolean else [_lift(x) for x in flat]
+        self._lay = None              # (offset, strides) into the shared storage when this array is a view
         if len(self.flat) != _prod(self.shape):
             raise A.Undecided("shape %s does not hold %d elements" % (self.shape, len(self.flat)))
+
+    # ------------------------------------------------------------------- views
+    def _layout(self):
+        """(storage list, offset, strides in elements): own storage in C order unless this is a view"""
+        if self._lay is not None:
+            return self.flat.store, self._lay[0], list(self._lay[1])
+        return self.flat, 0, self._strides()
+
+    @staticmethod
+    def _view(shape, store, offset, strides, boolean=False):
+        """an array that shares `store`: element idx lives at offset + sum(idx*strides) - what numpy calls a view"""
+        out = SymArr.__new__(SymArr)
+        out.shape = tuple(int(s_) for s_ in shape)
+        out.boolean = boolean
+        index = [offset + sum(i * s_ for i, s_ in zip(idx, strides)) for idx in itertools.product(*[range(n) for n in out.shape])]
+        out.flat = _ViewList(store, index)
+        out._lay = (offset, tuple(strides))
+        return out
 
     # ------------------------------------------------------------ construction
     @staticmethod
@@ -118,7 +208,7 @@ class SymArr:
         return [self[i].tolist() for i in range(self.shape[0])]
 
     def copy(self):
-        return SymArr(self.shape, list(self.flat))
+        return SymArr(self.shape, list(self.flat), self.boolean)
 
     def astype(self, *_a, **_k):
         return self.copy()
@@ -134,9 +224,19 @@ class SymArr:
         if _prod(shape) != self.size:
             raise A.Undecided("cannot reshape %s into %s" % (self.shape, shape))
         if order in ("C", "c", None):
-            return SymArr(shape, list(self.flat))
-        if order not in ("F", "f"):
+            fortran = False
+        elif order in ("F", "f"):
+            fortran = True
+        else:
             raise A.Undecided("reshape order %r" % (order,))
+        # numpy returns a view whenever the new shape can be expressed with strides over the same memory, a copy otherwise
+        if self.size > 0:
+            store, off, strides = self._layout()
+            ns = _nocopy_reshape(self.shape, strides, shape, fortran)
+            if ns is not None:
+                return SymArr._view(shape, store, off, ns, self.boolean)
+        if not fortran:
+            return SymArr(shape, list(self.flat), self.boolean)
         src = [self.at(i) for i in self.indices("F")]
         out = SymArr(shape, [0] * self.size)
         st = out._strides()
@@ -149,22 +249,17 @@ class SymArr:
             return SymArr((self.size,), [self.at(i) for i in self.indices("F")])
         return SymArr((self.size,), list(self.flat))
 
-    ravel = flatten
+    def ravel(self, order="C"):
+        return self.reshape((self.size,), order=order if order in ("C", "c", "F", "f") else "C")
 
     def transpose(self, *axes):
         if self.ndim < 2:
-            return self.copy()
+            return self
         if axes and isinstance(axes[0], (tuple, list)):
             axes = tuple(axes[0])
         axes = tuple(axes) if axes else tuple(reversed(range(self.ndim)))
-        shape = tuple(self.shape[a] for a in axes)
-        flat = []
-        for idx in itertools.product(*[range(s) for s in shape]):
-            src = [0] * self.ndim
-            for k, a in enumerate(axes):
-                src[a] = idx[k]
-            flat.append(self.at(src))
-        return SymArr(shape, flat)
+        store, off, strides = self._layout()
+        return SymArr._view(tuple(self.shape[a] for a in axes), store, off, [strides[a] for a in axes], self.boolean)
 
     @property
     def T(self):
@@ -215,6 +310,22 @@ class SymArr:
         return sel
 
     def _getitem(self, key):
+        kt = key if isinstance(key, tuple) else (key,)
+        if all(isinstance(k, slice) or (isinstance(k, int) and not isinstance(k, bool)) for k in kt) and any(isinstance(k, slice) for k in list(kt) + [slice(None)] * (self.ndim - len(kt))) \
+                and len(kt) <= self.ndim:
+            # basic indexing: a view (numpy)
+            kt = list(kt) + [slice(None)] * (self.ndim - len(kt))
+            store, off, strides = self._layout()
+            shape, nstr = [], []
+            for k, n_, st_ in zip(kt, self.shape, strides):
+                if isinstance(k, slice):
+                    start, stop, step = k.indices(n_)
+                    shape.append(len(range(start, stop, step)))
+                    nstr.append(st_ * step)
+                    off += start * st_
+                else:
+                    off += _as_int(k, n_) * st_
+            return SymArr._view(shape, store, off, nstr, self.boolean)
         sel = self._norm_key(key)
         shape = tuple(len(ix) for ix, keep in sel if keep)
         flat = [self.at(idx) for idx in itertools.product(*[ix for ix, _ in sel])]
@@ -606,7 +717,7 @@ def np_summaries():
         "np.reshape": reshape, "np.array": array, "np.asarray": array, "np.zeros": zeros, "np.ones": lambda s, *a, **k: SymArr.ones(s),
         "np.eye": lambda n, *a, **k: SymArr.eye(n), "np.identity": lambda n: SymArr.eye(n),
         "np.dot": dot, "np.tensordot": tensordot, "np.einsum": einsum, "np.kron": kron, "np.append": append, "np.bmat": bmat, "np.transpose": lambda a: SymArr.of(a).T,
-        "np.ravel": lambda a, order="C": SymArr.of(a).flatten(order), "np.sort": sort, "np.copy": lambda a: SymArr.of(a).copy(),
+        "np.ravel": lambda a, order="C": SymArr.of(a).ravel(order), "np.sort": sort, "np.copy": lambda a: SymArr.of(a).copy(),
         "np.add": lambda a, b: SymArr.of(a) + b, "np.sum": lambda a, axis=None: SymArr.of(a).sum(axis),
         "scipy.sparse.kron": kron, "scipy.sparse.eye": lambda n, *a, **k: SymArr.eye(n), "scipy.linalg.block_diag": block_diag,
         "np.column_stack": lambda t: SymArr.of([SymArr.of(c).tolist() for c in t]).T,
